@@ -886,7 +886,16 @@ class Sym:
         inner = strip_sym(s)
         if isinstance(inner, tuple) and inner and inner[0] == "agg" and inner[1] in ("tuple", "closure") and s[0] != "agg":
             # field of a tuple / closure environment reached through references or a capture
-            s = inner
+            def _through_capture(x):
+                while isinstance(x, tuple) and x and x[0] in ("ref", "deref", "capture", "cast"):
+                    if x[0] == "capture":
+                        return True
+                    x = x[2] if x[0] == "capture" else x[1]
+                return False
+
+            via = _through_capture(s)
+            r = self._field(inner, name, idx)
+            return ("capture", -1, r) if via and not (isinstance(r, tuple) and r and r[0] == "capture") else r
         if s[0] == "agg" and s[3] is not None:
             # field of a locally built aggregate
             fields = s[4]
@@ -1650,6 +1659,57 @@ class InlinedFn(Fn):
 
     def region(self):
         self.body  # resolving closure calls may remove closures from the region
+        if self.parent is None and not getattr(self, "_region_pruned", False):
+            self._region_pruned = True
+            members = Fn.region(self)
+            for m_ in members:
+                m_.body
+            members = Fn.region(self)
+            spliced, used = set(), set()
+
+            def direct(v):
+                v = strip_sym(v)
+                if not isinstance(v, tuple) or not v:
+                    return
+                if v[0] == "agg" and v[1] == "closure":
+                    yield v[5]
+                elif v[0] == "agg" and v[1] == "tuple":
+                    for o in v[3]:
+                        yield from direct(o)
+                elif v[0] == "phi":
+                    for o in v[1]:
+                        yield from direct(o)
+
+            for m_ in members:
+                sy = Sym(m_)
+                for blk in m_.body.blocks:
+                    t = blk.get("t") or {}
+                    if t.get("inl_call"):
+                        spliced.add(t["inl_call"])
+                    if t.get("k") == "call":
+                        for a in t.get("args", []):
+                            try:
+                                used.update(direct(sy.operand(a)))
+                            except RecursionError:
+                                pass
+            dead = spliced - used
+
+            def prune(f_):
+                kept = []
+                for c in f_.children:
+                    if c.path in dead:
+                        # the closures created inside a spliced closure now belong to the body it was spliced into
+                        for g_ in c.children:
+                            g_.parent = f_
+                            kept.append(g_)
+                    else:
+                        kept.append(c)
+                f_.children = kept
+                for c in f_.children:
+                    prune(c)
+
+            if dead:
+                prune(self)
         return Fn.region(self)
 
     def _resolve_closure_calls(self):
@@ -1779,7 +1839,15 @@ class InlinedFn(Fn):
                             if isinstance(x, tuple) and x and x[0] == "agg" and x[1] == "closure":
                                 still_used.add(x[5])
             spliced = {blk["t"].get("inl_call") for blk in blocks if (blk.get("t") or {}).get("inl_call")}
-            self.children = [c for c in self.children if c.path not in spliced or c.path in still_used]
+            kept_ = []
+            for c in self.children:
+                if c.path in spliced and c.path not in still_used:
+                    for g_ in c.children:
+                        g_.parent = self
+                        kept_.append(g_)
+                else:
+                    kept_.append(c)
+            self.children = kept_
         return changed
 
     def _devirtualise(self):
